@@ -2,14 +2,14 @@
 is replayed on the real objects and the recorded events are validated by spec/WorkflowTrace.tla; longer random histories
 come from TLC's simulator.  The result is computed once per (tree, harness, specification, tier, seed) and shared by the
 checks that use it: each check is answerable for the objects of its property
-   S -> C07   H -> C03   DM, EA -> C09   CX, C, QA, OPS -> C10   GF -> C01   X -> C02   SU -> C14   V -> C15
+   IC -> C18   HS -> C04   SYM, S -> C07   H -> C03   DM, EA -> C09   CX, C, QA, OPS -> C10   GF -> C01   X -> C02   SU -> C14   V -> C15
 and C17 replays the documented transitions under ASan/UBSan.
 Calls the code rejects by exStatusMismatch (Guarded in the specification) are replayed and validated as well, but a
 disagreement on one of them is reported as a note, not as a violation: no listed property speaks about misuse."""
 import fcntl, hashlib, json, os, random, time
 import pv, models, build
 
-OWNER = {"S": "C07", "H": "C03", "DM": "C09", "EA": "C09", "CX": "C10", "C": "C10", "QA": "C10", "OPS": "C10",
+OWNER = {"IC": "C18", "HS": "C04", "SYM": "C07", "S": "C07", "H": "C03", "DM": "C09", "EA": "C09", "CX": "C10", "C": "C10", "QA": "C10", "OPS": "C10",
          "GF": "C01", "X": "C02", "SU": "C14", "V": "C15"}
 
 
